@@ -30,6 +30,9 @@ REVIEWED_NONDET = {
     ('evm2rbr_compiler', 'dtimer()'): "timing of the RBR construction, local variables only",
     ('execute_gasol', 'dtimer()'): "total time printed at the end",
 }
+# (function, source prefix of the test) -> a test on a clock value that is reviewed as harmless
+REVIEWED_CLOCK_TESTS = {}
+
 REVIEWED_SETITER = {
     # F23: two sites of this table were wrongly accepted at first ("a sum over the elements", "checked by the replay") although
     # the summed function reads and updates a visited-map; they were real (hash-seed dependent bounds) and are repaired in /repo.
@@ -98,6 +101,15 @@ class PurityScan(NativeCase):
             got, budget = per_mod_si.get(key, 0), REVIEWED_SETITER_BUDGET.get(key, 0)
             self.ob('ordered consumptions of sets are the reviewed ones', got <= budget, inputs=dict(module=key, sites=sites_si.get(key, []), reviewed=budget),
                     info="%d ordered consumption(s) of a set in %s, %d reviewed: %s" % (got, key, budget, sites_si.get(key)))
+        # a clock value may be stored and reported, but no decision may depend on it (machine load / speed)
+        _, _, sites = purity.clock_taint(dict((k, A.funcs[k]) for k in reach))
+        unreviewed = [x for x in sites if not any(k[1].endswith(f) and src.startswith(pref) for (f, pref) in REVIEWED_CLOCK_TESTS for k, _, src in [x])]
+        self.ob('no clock value reaches a decision', not unreviewed, inputs=dict(sites=["%s:%d %s" % (k[1], ln, src) for k, ln, src in unreviewed]),
+                info="a value read from a clock is compared or tested: %s" % unreviewed[:3])
+        # a memoised function keeps results across blocks: only allowed when it reads nothing but its arguments
+        memo = [(k, purity.memoised(A.funcs[k])) for k in sorted(reach) if purity.memoised(A.funcs[k])]
+        self.ob('no memoised function inside the pipeline', not memo, inputs=dict(functions=["%s.%s %s" % (k[0], k[1], d) for k, d in memo]),
+                info="results kept between calls (and blocks): %s" % memo[:3])
         # identifier numbering goes through sorted(...)
         bud = A.funcs.get(('sfs_generator.gasol_optimization', 'build_userdef_instructions'))
         ok = bud is not None and any(isinstance(n, ast.Call) and isinstance(n.func, ast.Name) and n.func.id == 'sorted' and 'u_dict' in ast.unparse(n)
@@ -109,6 +121,9 @@ class PurityScan(NativeCase):
 
 
 ORDER_SENSITIVE = [
+    # two loads of different kinds with the same index that must both precede one store (ties of a sort key over a set of ids)
+    "MLOAD SWAP1 PUSH 20 SWAP1 KECCAK256 SWAP2 SWAP1 SWAP3 SWAP1 MSTORE", "SLOAD SWAP1 MLOAD SWAP2 SWAP1 SWAP3 SWAP1 SSTORE",
+    "DUP1 MLOAD DUP2 PUSH 20 SWAP1 KECCAK256 DUP3 SLOAD SWAP3 SWAP1 SWAP4 SWAP1 MSTORE ADD ADD",
     "DUP1 MLOAD SWAP2 PUSH 20 ADD MLOAD DUP3 SSTORE DUP2 PUSH 1 ADD SLOAD ADD SWAP1 PUSH 0 MSTORE PUSH 20 MSTORE PUSH 40 PUSH 0 KECCAK256 SLOAD "
     "DUP2 MSTORE PUSH 7 PUSH 9 SSTORE",
     "DUP1 MLOAD SWAP1 PUSH 20 ADD MLOAD DUP2 PUSH 0 MSTORE PUSH 20 MSTORE PUSH 40 PUSH 0 KECCAK256 SLOAD ADD PUSH 0 SSTORE",
